@@ -394,6 +394,57 @@ def rule_r5(rep, program: Program):
     return r
 
 
+def rule_r6(rep, program: Program):
+    r = rep.rule("R6", "decorator protocol: cache key identifies class, method and system object; every stored key is registered under every declared dependency; the miss test recognises the invalidation marker", floor=6)
+    kf = program.func("states", "_cache_key_func")
+    rets = [n for n in ast.walk(kf.node) if isinstance(n, ast.Return)]
+    v = rets[-1].value if rets else None
+    txt = norm(v) if v is not None else ""
+    sysp, methp = kf.params[0], kf.params[1]
+    has_id = any(isinstance(c, ast.Call) and norm(c.func) == "id" and c.args and norm(c.args[0]) == sysp for c in ast.walk(v)) if v is not None else False
+    has_method = methp in {x.id for x in ast.walk(v) if isinstance(x, ast.Name)} if v is not None else False
+    has_type = f"type({sysp})" in txt or f"{sysp}.__class__" in txt
+    r.inst({"cache key": txt, "system identity": has_id, "method": has_method, "class": has_type})
+    if not has_id:
+        r.violate(PROP, "_cache_key_func:no-system-identity", "the cache key does not contain the identity of the system object: two system objects of one class sharing a state read each other's cached values", node=kf.node, file=kf.file)
+    if not has_method:
+        r.violate(PROP, "_cache_key_func:no-method", "the cache key does not contain the method name: different methods overwrite each other's entries", node=kf.node, file=kf.file)
+    # invalidation marker of __setattr__
+    sf, name_param, body, i = setattr_store_site(program)
+    marker = None
+    for st in ast.walk(sf.node):
+        if isinstance(st, ast.Assign) and isinstance(st.targets[0], ast.Subscript) and norm(st.targets[0].value) == "self._cache":
+            marker = norm(st.value)
+        if isinstance(st, ast.Delete) or (isinstance(st, ast.Expr) and isinstance(st.value, ast.Call) and norm(st.value.func) == "self._cache.pop"):
+            marker = marker or "<deleted>"
+    for dname in ("cache_in_state", "cache_in_state_with_aux"):
+        d = program.func("states", dname)
+        ws = [n for n in ast.walk(d.node) if isinstance(n, ast.FunctionDef) and n.name == "wrapper"]
+        if len(ws) != 1:
+            raise AnalysisError(f"{dname}: wrapper not found")
+        w = ws[0]
+        sp = w.args.args[1].arg
+        # registration: for dep in depends_on: state._dependencies[dep].add(key)
+        regs = [n for n in ast.walk(w) if isinstance(n, ast.For) and norm(n.iter) == "depends_on" and any(isinstance(c, ast.Call) and norm(c.func) == f"{sp}._dependencies[{norm(n.target)}].add" for c in ast.walk(n))]
+        r.inst({"decorator": dname, "registration loops": len(regs)})
+        if not regs:
+            r.violate(PROP, f"{dname}.wrapper:no-registration", "cached keys are not registered under the declared dependencies: assigning a variable never invalidates them", node=w, file=d.file)
+        else:
+            # every key that can be stored must be covered: with aux the registration iterates over all keys
+            if dname == "cache_in_state_with_aux":
+                outer = [n for n in ast.walk(w) if isinstance(n, ast.For) and any(x is regs[0] for x in ast.walk(n)) and n is not regs[0]]
+                over_keys = any(norm(o.iter) in ("keys", "enumerate(keys)") for o in outer)
+                r.inst({"decorator": dname, "registration covers primary and auxiliary keys": over_keys})
+                if not over_keys:
+                    r.violate(PROP, f"{dname}.wrapper:aux-keys-not-registered", "auxiliary cache keys are stored but not registered under the dependencies: auxiliary values survive an assignment of the variable they depend on", node=w, file=d.file)
+        # miss test recognises the marker
+        tests = [norm(n.test) for n in ast.walk(w) if isinstance(n, ast.If) and any(isinstance(c, ast.Call) and isinstance(c.func, ast.Name) and c.func.id == "method" for s2 in n.body for c in ast.walk(s2))]
+        r.inst({"decorator": dname, "miss test": tests, "invalidation marker": marker})
+        if marker == "None" and tests and not any("is None" in t for t in tests):
+            r.violate(PROP, f"{dname}.wrapper:marker-not-recognised", "__setattr__ invalidates an entry by storing None, but the wrapper's miss test does not treat a None entry as missing: the invalidated entry (None) is returned", node=w, file=d.file)
+    return r
+
+
 MUTATING_METHODS = {"sort", "fill", "resize", "put", "itemset", "partition"}
 STATE_VARS = {"pos", "mom", "dir"}
 
@@ -537,6 +588,7 @@ def run(rep, program: Program, tier: str) -> None:
     rule_r3(rep, program)
     rule_r4(rep, program)
     rule_r5(rep, program)
+    rule_r6(rep, program)
     rule_r7(rep, program)
     rep.extra["callsites_resolved"] = se.resolved_calls
     rep.extra["callsites_unresolved"] = len(se.unresolved)
